@@ -556,6 +556,8 @@ func validPacket(rng *mrand.Rand, forResolver bool) []byte {
 			t = dnsx.TypeAAAA
 		case forResolver && k < 8:
 			t = dnsx.TypeCNAME
+		case k == 8:
+			t = uint16(rng.IntN(70)) // any low type number, known to the decoder or not
 		default:
 			all := append(append([]uint16{}, decoderTypes...), defaultTypes...)
 			t = all[rng.IntN(len(all))]
